@@ -66,6 +66,28 @@ type c20Plan struct {
 	Keys   []string   `json:"keys"`
 	Pre    []c20Op    `json:"pre"`
 	Rounds []c20Round `json:"rounds"`
+	// Bulk > 0: that many static leases exist before the router starts and are never changed; their names come in
+	// pairs in which one etcd key is a prefix of the next ("bulk/7" and "bulk/7/0", "bulk7" and "bulk7-x"), so a
+	// table far larger than the handful of changing keys has to be loaded (and re-loaded after every interruption).
+	Bulk int `json:"bulk,omitempty"`
+}
+
+func c20BulkKeys(router string, n int) []c20Key {
+	out := make([]c20Key, 0, n)
+	for i := 0; len(out) < n; i++ {
+		if router == "group" {
+			out = append(out, c20Key{Group: fmt.Sprintf("bulk%d", i)})
+			if len(out) < n {
+				out = append(out, c20Key{Group: fmt.Sprintf("bulk%d-x", i)})
+			}
+			continue
+		}
+		out = append(out, c20Key{Topic: "bulk", Part: int32(i)})
+		if len(out) < n {
+			out = append(out, c20Key{Topic: fmt.Sprintf("bulk/%d", i), Part: 0})
+		}
+	}
+	return out
 }
 
 // key universe -------------------------------------------------------------
@@ -178,6 +200,9 @@ func c20GenPlan(rng interface{ Intn(int) int }, router string, ci int, thorough 
 			rd.Pause = genOps("pause", r, 3)
 		}
 		p.Rounds = append(p.Rounds, rd)
+	}
+	if ci%8 == 3 { // drawn last: the rest of the plan is the same as without it
+		p.Bulk = 150 + rng.Intn(950)
 	}
 	return p, keys
 }
@@ -473,6 +498,20 @@ func c20Execute(t *testing.T, r *verifkit.Run, cli *clientv3.Client, ns string, 
 	cc.Lease = cli.Lease
 
 	c.runOps(plan.Pre)
+	bulk := c20BulkKeys(router, plan.Bulk)
+	for i := 0; i < len(bulk); i += 100 {
+		var ops []clientv3.Op
+		for j := i; j < len(bulk) && j < i+100; j++ {
+			ops = append(ops, clientv3.OpPut(bulk[j].etcdKey(router), fmt.Sprintf("broker-%d#c%d.bulk", j%4, ci)))
+		}
+		bctx, bcancel := context.WithTimeout(ctx, 20*time.Second)
+		_, err := c.nkv.Txn(bctx).Then(ops...).Commit()
+		bcancel()
+		if err != nil {
+			r.Inconclusive(fmt.Sprintf("case %d/%s: writing the static leases failed: %v", ci, router, err))
+			return
+		}
+	}
 
 	var lookup func(k c20Key) string
 	var all func() map[string]string
@@ -616,6 +655,27 @@ func c20Execute(t *testing.T, r *verifkit.Run, cli *clientv3.Client, ns string, 
 			}
 			divs = append(divs, div{Key: k.name(router), Etcd: want, Router: g, Last: lastOp[i]})
 		}
+	}
+	for _, k := range bulk {
+		want := byEtcdKey[k.etcdKey(router)]
+		got := lookup(k)
+		got2 := table[k.name(router)]
+		known[k.name(router)] = true
+		if want == "" {
+			r.Inconclusive(fmt.Sprintf("case %d/%s: static lease %s not in etcd at the end", ci, router, k.name(router)))
+			return
+		}
+		if got != want || got2 != want {
+			g := got
+			if got == want {
+				g = got2 + " (AllRoutes)"
+			}
+			divs = append(divs, div{Key: k.name(router), Etcd: want, Router: g, Last: c20Op{Phase: "static_bulk_lease", Kind: "put", Val: want, Name: k.name(router)}})
+		}
+	}
+	if len(bulk) > 0 {
+		r.Count("cases_with_large_static_table", 1)
+		r.Count("static_leases_compared", int64(len(bulk)))
 	}
 	var phantom []string
 	for name := range table {
